@@ -97,6 +97,10 @@ type entity struct {
 }
 
 func (d *jsonlineDecoder) Scan(ctx context.Context) (DecodedAmmo, error) {
+	// Like the other decoders: stop as soon as the provider is canceled (preload reads the whole file in a loop of Scans).
+	if err := ctx.Err(); err != nil {
+		return nil, err
+	}
 	if d.config.Limit != 0 && d.ammoNum >= d.config.Limit {
 		return nil, ErrAmmoLimit
 	}
